@@ -645,6 +645,32 @@ Definition lift_subgraph_inits (order : list gref) (m : model) : model :=
     | _, _ => m
     end) order m.
 
+(* ---------------------------------------------------------------- AddDefaultAttributesPass *)
+(* `defaults`: per operator id the schema's optional attributes that have a default value (name, value), as read by
+   the harness from onnx.defs with the calls the pass makes (modelled, not verified).  A default is added when the node
+   has no attribute of that name; the converter lists attributes sorted by name, so the model inserts in name order. *)
+Fixpoint str_ltb (a b : str) : bool :=
+  match a, b with
+  | [], [] => false
+  | [], _ :: _ => true
+  | _ :: _, [] => false
+  | x :: a', y :: b' => if N.ltb x y then true else if N.eqb x y then str_ltb a' b' else false
+  end.
+Fixpoint insert_attr (ka : str * attr) (l : list (str * attr)) : list (str * attr) :=
+  match l with
+  | [] => [ka]
+  | x :: r => if str_ltb (fst ka) (fst x) then ka :: l else x :: insert_attr ka r
+  end.
+Definition has_attr (name : str) (l : list (str * attr)) : bool := existsb (fun ka => str_eqb (fst ka) name) l.
+Definition add_attrs (attrs defs : list (str * attr)) : list (str * attr) :=
+  fold_left (fun acc d => if has_attr (fst d) attrs then acc else insert_attr d acc) defs attrs.
+Definition defaults_table := list (opid * list (str * attr)).
+Definition op_defaults (tbl : defaults_table) (op : opid) : list (str * attr) :=
+  match find (fun e => opid_eqb (fst e) op) tbl with Some e => snd e | None => [] end.
+Definition add_defaults_node (tbl : defaults_table) (n : node) : node :=
+  mkNode (n_op n) (add_attrs (n_attrs n) (op_defaults tbl (n_op n))) (n_ins n) (n_outs n).
+Definition add_default_attrs (tbl : defaults_table) (m : model) : model := map_graphs (map_nodes (add_defaults_node tbl)) m.
+
 (* ---------------------------------------------------------------- RemoveUnusedFunctionsPass *)
 Fixpoint used_funcs (fuel : nat) (m : model) (r : gref) (used : list opid) : list opid :=
   match fuel with
